@@ -252,21 +252,44 @@ func genRrCase(r *Rand, nFields int, acPct int, hintPct int, nOps int, nScanners
 const rrRule = "seeded roaring cases: 1..5 configured fields (0 fields rarely), document sets as in C01 with ids up to +-(2^55-1), operation sequences over 1..4 scanners sharing one index (Reset, WithHint with known/unknown/out-of-range ids, Retrieve, RetrieveDocs, GetRawResult, also without Reset in between); non-trivial = some retrieval returns a non-empty proper subset of the accepted documents; distinct = distinct input"
 
 func init() {
-	mk := func(hintPct int) func(tier string, r *Rand, add func(in interface{})) {
+	mk := func(hintPct int, zeroFields bool) func(tier string, r *Rand, add func(in interface{})) {
 		return func(tier string, r *Rand, add func(in interface{})) {
 			n := 60
 			if tier == "thorough" {
 				n = 4000
 			}
+			// boundary: a document with the maximum number of conjunctions (256, positions 0..255), hinted
+			for _, nconj := range []int{255, 256} {
+				c := rCase{Fields: []rField{{F: 0, Cont: "default"}, {F: 1, Cont: "default"}}}
+				d := eDoc{ID: -7}
+				for k := 0; k < nconj; k++ {
+					v := int64(k%5 + 1)
+					if k == nconj-1 {
+						v = 99 // only the last position matches 99
+					}
+					d.Cons = append(d.Cons, eConj{{F: 0, Inc: true, V: tvSlice("[]int", tvInt("int", v))}})
+				}
+				c.Docs = []eDoc{d, {ID: 8, Cons: []eConj{{{F: 0, Inc: true, V: tvSlice("[]int", tvInt("int", 99), tvInt("int", 2))}}}}}
+				for _, q := range [][]eAssign{{{F: 0, V: tvInt("int", 99)}}, {{F: 0, V: tvInt("int", 2)}}, {{F: 0, V: tvSlice("[]int", tvInt("int", 99), tvInt("int", 1))}}} {
+					for _, hs := range [][]int64{nil, {-7}, {8}, {-7, 8}, {12345}} {
+						c.Ops = append(c.Ops, rOp{S: 0, Op: "reset"})
+						if hs != nil {
+							c.Ops = append(c.Ops, rOp{S: 0, Op: "hint", Hint: hs})
+						}
+						c.Ops = append(c.Ops, rOp{S: 0, Op: pick(r, []string{"retrieve", "docs"}), A: q}, rOp{S: 0, Op: "raw"})
+					}
+				}
+				add(c)
+			}
 			for i := 0; i < n; i++ {
 				nf := 1 + r.Intn(5)
-				if r.Chance(3) {
+				if zeroFields && r.Chance(3) {
 					nf = 0
 				}
 				add(genRrCase(r, nf, 0, hintPct, 6+r.Intn(20), 1+r.Intn(4)))
 			}
 		}
 	}
-	props["C03"] = &propDef{header: "From BE Require Import Corr.CheckC03.", rule: rrRule, shardSize: 30, gen: mk(0), exec: execRr}
-	props["C15"] = &propDef{header: "From BE Require Import Corr.CheckC15.", rule: rrRule + "; hints on 60% of the fresh scanners", shardSize: 30, gen: mk(60), exec: execRr}
+	props["C03"] = &propDef{header: "From BE Require Import Corr.CheckC03.", rule: rrRule, shardSize: 30, gen: mk(0, true), exec: execRr}
+	props["C15"] = &propDef{header: "From BE Require Import Corr.CheckC15.", rule: rrRule + "; hints on 60% of the fresh scanners", shardSize: 30, gen: mk(60, false), exec: execRr}
 }
